@@ -137,6 +137,19 @@ fn run_inner(op: &str, a: &[Arg]) -> String {
             Val::T(t) => enc_expr(&t.to_expression_trivial()),
             _ => panic!("HARNESS: kind"),
         },
+        // E -> B of the conjunction of n distinct literals (the variable-count limit)
+        "limit" => {
+            let n: usize = xs(&a[0]).parse().expect("HARNESS: limit count");
+            let e: E = biodivine_boolean_functions::expressions::Expression::n_ary_and(
+                &(0..n)
+                    .map(|i| biodivine_boolean_functions::expressions::ExpressionNode::Literal(format!("v{}", i)).into())
+                    .collect::<Vec<E>>(),
+            );
+            match Bdd::try_from(e) {
+                Ok(b) => format!("ok{}", b.inputs().len()),
+                Err(_) => "err".to_string(),
+            }
+        }
         "conv.EB" => match f(&a[0]) {
             Val::E(e) => match Bdd::try_from(e.clone()) {
                 Ok(b) => format!("(ok {})", enc_bdd(&b)),
